@@ -4,6 +4,7 @@ Monitors: call-log monitor between evaluations + recording of what the cache acc
 commands is computed by a simulation of a caching evaluator over the set of keys the cache kind admits (admission
 predicate of conditional caches evaluated on the attributes the reference interpreter derives for each prefix).
 """
+import json
 import random
 
 PROPERTY = "C09"
@@ -146,6 +147,21 @@ def run_shard(spec):
             ext = base + "/" + rnd.choice(E.EXTENSIONS)
             oe = env.interp(ext)
             if oe is None or not oe.ok or oe.volatile or not oe.caching:
+                continue
+            # a serialising cache writes metadata as JSON: results (of the query, its prefixes and link sub-queries)
+            # whose state variables hold something JSON cannot write (bytes, a set, a frame) are not accepted by it
+            unserialisable = False
+            for kq in set(E.prefixes_of(q) + E.prefixes_of(ext) + E.link_queries_of(q) + E.link_queries_of(ext)):
+                rk = env.reference(kq)
+                if rk is None or not rk.get("ok"):
+                    continue
+                try:
+                    json.dumps(rk.get("vars"))
+                except Exception:
+                    unserialisable = True
+                    break
+            if unserialisable and not kind.startswith(("memory", "proxy(memory)", "shared_memory")):
+                env.count("skipped_unserialisable_variables")
                 continue
             done += 1
             via = rnd.choice(["plain", "plain", "plain", "debug", "cache_arg"])
